@@ -450,6 +450,12 @@ where
             self.idle.remove(&token);
         }
 
+        // A connection which can be shared stays available in the pool while it is checked out,
+        // so that checkouts created before this one is polled use it too, rather than connecting.
+        if let Some(reused) = idle_entry.as_mut().and_then(|connection| connection.reuse()) {
+            self.idle.entry(token).or_default().push(reused);
+        }
+
         idle_entry
     }
 }
